@@ -369,51 +369,73 @@ def r9_layout(ck, F):
         dl = strip_casts(agg_field_expr(ei, s, rv, "data_length"))
         ok = is_self_field(ks, "entries_len") and is_call(kl, "::len") and is_arg(kl.strip().a[0], "key") and is_call(dl, "::len") and is_arg(dl.strip().a[0], "data")
         ck.ob(R, "bound-records-entry", ok, f"bound = {{ key_start: {ks.show()}, key_length: {kl.show()}, data_length: {dl.show()} }}", ei, s)
+    from . import fmt
     cps = calls(ei, "::copy_from_slice")
     ck.exact(R, "copies into the buffer in Entries::insert", len(cps), 2, F.config)
-    shapes = []
-    for s, c, t in cps:
-        a = ei.arg_exprs(s)
-        dst = a[0].strip()
+
+    def isym(x):
+        if x.k == "call" and x.x["path"].endswith("::len") and x.a:
+            if is_self_field(x.a[0], "buffer"):
+                return "len"
+            y = x.a[0].strip()
+            if y.k == "arg" and y.x["name"] in ("key", "data"):
+                return "k" if y.x["name"] == "key" else "d"
+        if is_self_field(x, "entries_len"):
+            return "e"
+        return None
+    shapes = {}
+    for s_, c, t in cps:
+        a = ei.arg_exprs(s_)
         src = a[1].strip()
-        # dst = index_mut(index_mut(buffer, RangeFrom{start}), RangeTo{len})
-        ok = is_call(dst, "index_mut") and is_call(dst.a[0], "index_mut")
-        start = lim = None
-        if ok:
-            lim = dst.a[1].a[0] if dst.a[1].k == "agg" else None
-            start = dst.a[0].strip().a[1].a[0] if dst.a[0].strip().a[1].k == "agg" else None
-        shapes.append((src.x.get("name") if src.k == "arg" else "?", start.show() if start else "?", lim.show() if lim else "?"))
-    want_start = "(slice::len(self.buffer) SubWithOverflow self.entries_len).0"
-    exp = [("key", want_start, "slice::len(key)"), ("data", f"({want_start} AddWithOverflow slice::len(key)).0", "slice::len(data)")]
-    norm = [(n, st.replace("::deref(", "").replace("))", ")") if False else st, l) for n, st, l in shapes]
-    ok = [(n, _norm(st), _norm(l)) for n, st, l in shapes] == [(n, _norm(st), _norm(l)) for n, st, l in exp]
-    ck.ob(R, "insert-layout", ok, f"insert copies {shapes} (expected key at buffer[len-entries_len..][..key.len()], data right after it)", ei)
+        reg = fmt.slice_region(a[0], isym, lambda x: is_self_field(x, "buffer"))
+        shapes[src.x.get("name") if src.k == "arg" else "?"] = reg
+    # regions of the buffer, over len = buffer.len(), e = entries_len (already advanced), k / d = the two lengths
+    want = {"key": ({"len": 1, "e": -1}, {"len": 1, "e": -1, "k": 1}), "data": ({"len": 1, "e": -1, "k": 1}, {"len": 1, "e": -1, "k": 1, "d": 1})}
+    show = {n: ((fmt.lin_str(r[0]), fmt.lin_str(r[1])) if r else "?") for n, r in shapes.items()}
+    ck.ob(R, "insert-layout", shapes == want, f"insert copies {show} (expected key at buffer[len-entries_len .. +key.len()], data right after it)", ei)
     # entries_len is advanced by key.len()+data.len() before the copy
     st = [(site, s_) for site, s_ in ei.sites() if site.i is not None and s_["s"] == "assign" and s_["pl"]["p"] and s_["pl"]["p"][-1].get("name") == "entries_len"]
     ok = len(st) == 1 and cps and all(ei.dominates(st[0][0], s) for s, c, t in cps)
     if ok:
         e = ei._expr_of_def((st[0][0], "assign", st[0][1]["rv"]))
-        ok = _norm(e.show()) == _norm("(self.entries_len AddWithOverflow (slice::len(key) AddWithOverflow slice::len(data)).0).0")
+        ok = fmt.linform(e, isym) == {"e": 1, "k": 1, "d": 1}
     ck.ob(R, "entries-len-advanced-first", ok, "entries_len += key.len() + data.len() before the bytes are copied", ei)
     realloc_layout(ck, F, R)
     # readers
     rd = {"iter": (F.closures_of(A("entries_iter")), 4), "sort_by_key": (F.closures_of(A("entries_sort")), 2)}
     if F.has_body(A("entries_par_sort")) and not calls(F.body(A("entries_par_sort")), A("entries_sort")):
         rd["par_sort_by_key"] = (F.closures_of(A("entries_par_sort")), 2)
-    kstart = "(slice::len(arg1.0) SubWithOverflow b.key_start).0"
     for name, (cl, nidx) in rd.items():
         if not ck.ob(R, f"reader-closure/{name}", len(cl) == 1, f"{name} has one key/entry closure", config=F.config, nontrivial=False):
             continue
         c = cl[0]
-        idx = [(s, c.arg_exprs(s)) for s, cc, t in calls(c, "Index<I> for [T]>::index")]
-        got = []
-        for s, a in idx:
-            r = a[1]
-            got.append((r.x.get("adt", "").split("::")[-1] if r.k == "agg" else "?", _norm(r.a[0].show()) if r.k == "agg" and r.a else "?"))
-        want = [("RangeFrom", _norm(kstart)), ("RangeTo", _norm("(b.key_length as usize)"))]
-        if nidx == 4:
-            want += [("RangeFrom", _norm(f"({kstart} AddWithOverflow (b.key_length as usize)).0")), ("RangeTo", _norm("(b.data_length as usize)"))]
-        ck.ob(R, f"reader-layout/{name}", got == want, f"{name} reads {got} (expected key at tail[tail.len()-key_start..][..key_length]" + (", data right after it" if nidx == 4 else "") + ")", c)
+        # every slice the closure takes is a region of the tail it captured, over len = tail.len() and the bound's
+        # fields ks = key_start, kl = key_length, dl = data_length
+        idx = [c.arg_exprs(s_) for s_, cc, t in calls(c, "Index<I> for [T]>::index")]
+        base = None
+        for a in idx:
+            x = a[0].strip()
+            while x.k == "call" and x.x["path"].endswith("::index"):
+                x = x.a[0].strip()
+            base = base or x.ident()
+
+        def rsym(x, _base=base):
+            if x.k == "call" and x.x["path"].endswith("::len") and x.a and x.a[0].strip().ident() == _base:
+                return "len"
+            if x.k == "field" and x.x.get("name") in ("key_start", "key_length", "data_length"):
+                return {"key_start": "ks", "key_length": "kl", "data_length": "dl"}[x.x["name"]]
+            return None
+        regs = []
+        for s_, cc, t in calls(c, "Index<I> for [T]>::index"):
+            e_ = Expr("call", c.arg_exprs(s_), path="core::slice::index::<impl std::ops::Index<I> for [T]>::index", site=s_)
+            r_ = fmt.slice_region(e_, rsym, lambda x, _b=base: x.strip().ident() == _b)
+            if r_ is not None:
+                regs.append(r_)
+        key = ({"len": 1, "ks": -1}, {"len": 1, "ks": -1, "kl": 1})
+        dat = ({"len": 1, "ks": -1, "kl": 1}, {"len": 1, "ks": -1, "kl": 1, "dl": 1})
+        ok = key in regs and (nidx == 2 or dat in regs)
+        show = [(fmt.lin_str(a), fmt.lin_str(b_)) for a, b_ in regs]
+        ck.ob(R, f"reader-layout/{name}", ok, f"{name} reads the regions {show} of the tail (expected key at [len - key_start .. + key_length]" + (", data right after it" if nidx == 4 else "") + ")", c)
     # the tail handed to the closures starts right after the bounds: split_at(bounds_count * size_of::<EntryBound>())
     sz = F.adts[A("entry_bound")].get("size")
     for p in (A("entries_iter"), A("entries_sort")):
